@@ -18,7 +18,8 @@
    * DataFlow: while both copies took the same guarded gotos and passed the same filters, whenever they stand at
      assertion a the value of a's condition is the same in both copies.
    * Divergence: at the end of block q the chosen successor's guard holds in one copy only.  The branch outcome
-     depends on v.  The other copy takes any successor whose guard it satisfies (if none: it stops, no claim).
+     depends on v.  The other copy takes any successor whose guard it satisfies and the first copy does not (the
+     outcomes must be mutually exclusive: otherwise the goto choice, not v, decided; if there is none: no claim).
      The two copies now run independently (mode "R", own choices) until each has entered the re-join block
      rj = the immediate post-dominator of q (first block that lies on every path from q to the exit; no exit
      reachable from q: no claim).
